@@ -38,6 +38,7 @@ type Engine struct {
 	embKinds map[string]int
 	implTagCache map[string][]int
 	fnValues     map[*ssa.Function]bool
+	boxedTypes   map[string]bool
 	pendingCalls func(*ssa.Function)
 
 	repoDir string
@@ -180,7 +181,11 @@ func (e *Engine) implTags(t types.Type) []int {
 			out = append(out, e.tagOf(tn.Type()))
 		}
 		if pt := types.NewPointer(tn.Type()); types.Implements(pt, iface) {
-			out = append(out, e.tagOf(pt))
+			// *T of a type T that implements the interface itself is a possible dynamic type only
+			// if the package boxes a *T somewhere (closed world)
+			if !types.Implements(tn.Type(), iface) || e.boxed()[e.typeName(pt)] {
+				out = append(out, e.tagOf(pt))
+			}
 		}
 	}
 	if e.implTagCache == nil {
@@ -188,4 +193,22 @@ func (e *Engine) implTags(t types.Type) []int {
 	}
 	e.implTagCache[key] = out
 	return out
+}
+
+// boxed: names of the types converted to an interface anywhere in the package.
+func (e *Engine) boxed() map[string]bool {
+	if e.boxedTypes != nil {
+		return e.boxedTypes
+	}
+	e.boxedTypes = map[string]bool{}
+	for _, f := range e.order {
+		for _, b := range f.Blocks {
+			for _, ins := range b.Instrs {
+				if mi, ok := ins.(*ssa.MakeInterface); ok {
+					e.boxedTypes[e.typeName(mi.X.Type())] = true
+				}
+			}
+		}
+	}
+	return e.boxedTypes
 }
